@@ -520,7 +520,8 @@ def labelise(blocks):
                 d2 = sl[0][1] * 2
                 if d2 != int(d2):
                     raise Unlabelled(f"back-off {sl[0][1]} is not a multiple of 0.5 s")
-                add(f"AImplFail {int(d2)}", snap)
+                # serial: the port opened (self.writer assigned) and the configuration drain raised in the same step
+                add(f"{'AImplFailOpened' if _has(evs, 'opened') else 'AImplFail'} {int(d2)}", snap)
             elif _has(evs, "exit", "_connect_impl"):
                 i = [j for j, e in enumerate(evs) if e[:2] == ["exit", "_connect_impl"]][0]
                 add(f"AImplOk {_cb_of(evs, i)}", snap)
